@@ -127,6 +127,31 @@ Theorem C07_units_are_the_programs_units : forallb units_state_matches (family f
 Proof. exact family_units_state_matches. Qed.
 Print Assumptions C07_units_are_the_programs_units.
 
+(* ---- 7. a fresh (not --resume) start in a folder that holds the leftovers of a killed EARLIER run with other options (every
+   left-over content is stale).  cfA: one chromosome, leftovers of a kill at every mutation point; cfB: two chromosomes with a
+   read-group file, all points for the uninterrupted run, three representative kills for the interrupted one. *)
+(* uninterrupted, the fresh run produces the outputs of a run in an empty folder: what it trusts it has written itself *)
+Theorem C07_fresh_start_ignores_leftovers :
+  both (fun k1 a1 => uninterrupted_ok cfA (leftovers cfA k1 a1)) (seq 1 (n_mutations cfA)) &&
+  both (fun k1 a1 => uninterrupted_ok cfB (leftovers cfB k1 a1)) (seq 1 (n_mutations cfB)) = true.
+Proof. exact fresh_start_uninterrupted. Qed.
+Print Assumptions C07_fresh_start_ignores_leftovers.
+(* current code, REFUTED for the killed fresh run: the stage locks of the earlier run are dropped only when collect_reads is
+   reached; killed right after .params was rewritten (its 5th mutation) the resumed run trusts them and completes with stale
+   content *)
+Theorem C07_killed_fresh_start_refuted :
+  verdict (fs (clean_run cfA)) (resume_over false (leftovers cfA (first_removal cfA) false) cfA 5 false) = Differs /\
+  over_all false cfA (leftovers cfA (first_removal cfA) false) 5 = false.
+Proof. exact fresh_start_current_refuted. Qed.
+Print Assumptions C07_killed_fresh_start_refuted.
+(* with the stage locks dropped before .params is rewritten (fixes/C07_fresh_start_drops_stale_locks.diff) every kill point
+   of the fresh run resumes to the outputs of a run in an empty folder (partial: the two configurations above) *)
+Theorem C07_killed_fresh_start_repaired_partial :
+  both (fun k1 a1 => over_all true cfA (leftovers cfA k1 a1) 5) (seq 1 (n_mutations cfA)) &&
+  both (fun k1 a1 => over_all true cfB (leftovers cfB k1 a1) 5) [first_removal cfB; first_part_removal cfB + 2; n_mutations cfB - 4]%nat = true.
+Proof. exact fresh_start_early_cleaning_ok. Qed.
+Print Assumptions C07_killed_fresh_start_repaired_partial.
+
 (* ---- examples and witnesses *)
 (* the configuration term the harness derives for the bundled single-chromosome run (current code, lexicographic glob
    order) is gen_cfg; its program has the 79 mutations the wrapper logs *)
